@@ -4,15 +4,17 @@ pub broadcast proof fn lemma_put_put(b: Seq<u8>, p: int, w1: Seq<u8>, q: int, w2
     ensures #[trigger] put(put(b, p, w1), q, w2) == put(b, p, w1 + w2)
 {
     reveal(put);
+    if w1.len() == 0 { assert(w1 + w2 =~= w2); }
+    if w2.len() == 0 { assert(w1 + w2 =~= w1); }
     assert(put(put(b, p, w1), q, w2) =~= put(b, p, w1 + w2));
 }
 pub broadcast proof fn lemma_put_len(b: Seq<u8>, p: int, w: Seq<u8>)
     requires 0 <= p
-    ensures (#[trigger] put(b, p, w)).len() == if b.len() > p + w.len() { b.len() as int } else { p + w.len() }
+    ensures (#[trigger] put(b, p, w)).len() == if w.len() == 0 || b.len() > p + w.len() { b.len() as int } else { p + w.len() }
 { reveal(put); }
 // reading back what was written
 pub proof fn lemma_at_put(b: Seq<u8>, p: int, w: Seq<u8>, k: int, n: int)
-    requires 0 <= p, 0 <= k, 0 <= n, k + n <= w.len()
+    requires 0 <= p, 0 <= k, 0 <= n, k + n <= w.len(), w.len() > 0
     ensures at(put(b, p, w), p + k, n) == w.subrange(k, k + n), inb(put(b, p, w), p + k, n)
 {
     reveal(put);
@@ -24,7 +26,6 @@ pub proof fn lemma_put_frame(b: Seq<u8>, p: int, w: Seq<u8>, i: int)
     ensures put(b, p, w)[i] == b[i]
 { reveal(put); }
 pub proof fn lemma_put_empty(b: Seq<u8>, p: int)
-    requires 0 <= p <= b.len()
     ensures put(b, p, Seq::<u8>::empty()) == b
 {
     reveal(put);
@@ -39,4 +40,13 @@ pub proof fn lemma_put_chain(b0: Seq<u8>, p0: int)
     assert forall|acc: Seq<u8>, q: int, w: Seq<u8>| q == p0 + acc.len() implies #[trigger] put(put(b0, p0, acc), q, w) == put(b0, p0, acc + w) by {
         lemma_put_put(b0, p0, acc, q, w);
     }
+}
+pub proof fn lemma_put_empty_any(b: Seq<u8>, p: int)
+    ensures put(b, p, Seq::<u8>::empty()) == b
+{ lemma_put_empty(b, p); }
+
+pub proof fn lemma_add_empty()
+    ensures forall|s: Seq<u8>| #[trigger] (s + Seq::<u8>::empty()) == s
+{
+    assert forall|s: Seq<u8>| #[trigger] (s + Seq::<u8>::empty()) == s by { assert(s + Seq::<u8>::empty() =~= s); }
 }
